@@ -1,3 +1,4 @@
+import LP.Props.C13Obs
 import LP.Props.GenTables
 import LP.Props.C13
 import LP.Props.C13Union
@@ -22,3 +23,7 @@ import LP.Props.C13Int
 #print axioms LP.FSet.C13_contains
 #print axioms LP.FSet.C13_containsInt
 #print axioms LP.FSet.C13_set_containsInt
+#print axioms LP.FSet.nfs_nfw
+#print axioms LP.FSet.C13_isEmpty
+#print axioms LP.FSet.C13_isPoint
+#print axioms LP.FSet.C13_isFull
